@@ -51,9 +51,9 @@ Local(i) ==
       ms == [k \in DOMAIN t.inds |-> [inds |-> <<t.inds[k]>>, shape |-> <<2>>, data |-> MIT(t.inds[k], i)]]
   IN  <<t>> \o ms
 
-InScope == HyperDomain(Net, Nm)
+InScope == done => HyperDomain(Net, Nm)
 \* the local contractions of the Bethe formula all equal Z
-BetheExact ==
+BetheExact == done =>
   /\ \A i \in DOMAIN Net : DenoteScalar(Local(i)) = Z
   /\ \A x \in NetLabels(Net) :
         LET hs == HolderSeq(x) IN
@@ -64,13 +64,13 @@ BetheExact ==
   \* a tree: #T + #I - #incidences = 1
   /\ Len(Net) + Cardinality(NetLabels(Net)) - Cardinality(E) = 1
 \* beliefs are the marginals
-BeliefsExact ==
+BeliefsExact == done =>
   /\ \A x \in NetLabels(Net) :
         LET hs == HolderSeq(x) IN
         VecProd([k \in DOMAIN hs |-> MTI(hs[k], x)], 2) = MargOf(Net, <<x>>)
   /\ \A i \in DOMAIN Net : Denote(Local(i), Net[i].inds) = MargOf(Net, Net[i].inds)
 \* index -> tensor messages are the products of the other tensor -> index messages
-DefsAgree ==
+DefsAgree == done =>
   \A i \in DOMAIN Net : \A k \in DOMAIN Net[i].inds :
      LET x == Net[i].inds[k]
          hs == SelectSeq(HolderSeq(x), LAMBDA j : j # i) IN
